@@ -1254,6 +1254,13 @@ var c05PostPushEffects = map[string]bool{
 func c05R2Wrappers(c *Ctx) {
 	const R = "C05.R2.wrapper-forwards-descriptor"
 	c.Expect(R, 9)
+	c05Wrappers(c, R, false)
+}
+
+// c05Wrappers checks the store front-ends that forward to an inner Push.
+// With refusalOnly (C06) it decides that nothing is changed unless the inner
+// Push succeeded and that the inner Push's refusal is returned.
+func c05Wrappers(c *Ctx, R string, refusalOnly bool) {
 	type w struct {
 		pkg, name string
 		effects   bool
@@ -1299,8 +1306,20 @@ func c05R2Wrappers(c *Ctx) {
 			c.LostAnchor(R, FnName(fn)+": inner Push")
 			continue
 		}
-		c.Check(R, FnName(fn)+"|inner-push-gets-callers-descriptor", pos, ok,
-			ifelse(ok, "the inner Push verifies against the caller's descriptor (same Digest and Size)", "the wrapper hands a different descriptor to the inner Push than the one its caller named"))
+		if !refusalOnly {
+			c.Check(R, FnName(fn)+"|inner-push-gets-callers-descriptor", pos, ok,
+				ifelse(ok, "the inner Push verifies against the caller's descriptor (same Digest and Size)", "the wrapper hands a different descriptor to the inner Push than the one its caller named"))
+		} else {
+			for _, ip := range inner {
+				var tol []string
+				if x.pkg == "content/file" {
+					tol = []string{"~/content/file.errSkipUnnamed"}
+				}
+				r := ErrFlow(ip, ErrFlowOpts{Tolerated: tol})
+				c.Check(R, FnName(fn)+"|inner-push-refusal-returned", ip.Pos(), r.OK,
+					ifelse(r.OK, "a refusal of the inner Push (already exists / duplicate name / mismatch) is returned: "+r.How, "a refusal of the inner Push can be reported as success: "+r.Detail))
+			}
+		}
 		if !x.effects {
 			continue
 		}
